@@ -77,10 +77,9 @@ def judge_traces(rep, recs, dv, tag, cal=False):
 def calibrate(rep, recs, got, dv):
     """The engine may have some of the listed defects repaired.  When traces are violated, TLC re-judges them in
     calibration mode: wherever the engine followed the reference although the as-is model predicts otherwise,
-    C08_Trace names the deviations whose removal makes the as-is model agree (`anti`).  Deviations with such
-    counter-evidence and without a single necessary attribution in the whole run are dropped and the violated
-    traces are judged again; the result is kept only if it is better."""
-    sure = collections.Counter(m["dev"] for v in got.values() for m in v["mis"] if m["v"] == "known")
+    C08_Trace names the deviations whose removal makes the as-is model agree (`anti`).  Deviations with more such
+    counter-evidence than necessary attributions on the violated traces are dropped and the violated traces are
+    judged again; the result is kept only if it is better."""
     for _ in range(4):
         viol = [r for r in recs if got[r["id"]]["cnt"]["viol"] > 0]
         if not viol or not dv:
@@ -88,7 +87,8 @@ def calibrate(rep, recs, got, dv):
         g1, st, tr = judge_traces(rep, [dict(r) for r in viol[:400]], dv, "calib", cal=True)
         rep.add_judge(0, st, tr)
         anti = collections.Counter(d for v in g1.values() for d in v["anti"])
-        cand = [d for d in dv if not (anti[d] > 0 and sure[d] == 0)]
+        sure = collections.Counter(m["dev"] for v in g1.values() for m in v["mis"] if m["v"] == "known")
+        cand = [d for d in dv if not anti[d] > sure[d]]
         if cand == dv:
             break
         g2, st, tr = judge_traces(rep, [dict(r) for r in viol], cand, "rejudge")
